@@ -755,6 +755,67 @@ def forward_mode_rule(ctx, rule):
         ctx.ok(rule, construct)
 
 
+def cond_site_continuation(ctx, rule="DEP-cond-site-continuation"):
+    """C11 "(including cond)": an ADEV site's estimator is applied to the site's continuation — *the rest of the expectation program*.  The
+    cond arm transforms each branch with ADEV.forward_mode(branch, post-cond continuation).  If forward_mode merely applies that continuation
+    to the *result* of interpreting the branch, a site inside the branch gets a continuation that ends at the branch output: its estimator
+    (enumeration p·f(True)+(1−p)·f(False), REINFORCE f·∇log p, …) averages the branch output, and the non-linear rest of the program is applied
+    to that average — g(E[y]) instead of E[g(y)].  Necessary condition: the continuation parameter flows *into* the interpretation of the
+    transformed function (so that site continuations can extend to it).  Absence of that flow proves the defect (DEP+)."""
+    ev = mk_ev(ctx)
+    dotted = AD + "ADEV.forward_mode"
+    s = summarize(ctx, ev, dotted)
+    r = s.ret
+    construct = "adev.ADEV.forward_mode (used for cond branches)"
+    ctx.need(r[0] == "closure", f"{dotted}: returned wrapper not found (anchor vanished)")
+    kind, node, mod, owner = ctx.p.get_function(dotted)
+    pnames = [a.arg for a in node.args.args]
+    ctx.need(len(pnames) >= 2, f"{dotted}: continuation parameter not found (anchor vanished)")
+    K = ("param", pnames[1])
+    m = make_model(ev)
+    D = ("param", "duals_")
+    duals = (DualV(Atom("x", 0), Atom("dx", 0)),)
+    m.bind(D, duals)
+    m.bind(("param", pnames[0]), Opq("f"))
+    m.bind(K, Opq("K"))
+    m.funcs["jax.numpy.array"] = lambda v, **kw: v
+    m.funcs["jax.numpy.asarray"] = lambda v, **kw: v
+
+    class Closed:
+        model_attrs = {"jaxpr": Opq("jaxpr"), "literals": Opq("consts"), "consts": Opq("consts")}
+    m.funcs[PJ + "stage"] = lambda f: (lambda *a, **k: (Closed(), (Opq("flat-args"), Opq("in-tree"), lambda: TreeDef("out"))))
+    seen = []
+
+    def interp(*args, **kw):
+        seen.append((args, kw))
+        return DualV(Atom("out"), Atom("dout"))
+    m.funcs[AD + "ADEV.eval_jaxpr_adev"] = interp
+    try:
+        m.ev(ev.apply_closure(r, (("star", D),), ()))
+    except Unknown as e:
+        raise AnalysisError(f"{dotted}: cannot evaluate: {e}")
+    ctx.need(bool(seen), f"{dotted}: the interpreter call was not reached (anchor vanished)")
+
+    def mentions(v):
+        if v == Opq("K"):
+            return True
+        if isinstance(v, Opq):
+            return any(mentions(x) for x in v.parts)
+        if isinstance(v, (list, tuple)):
+            return any(mentions(x) for x in v)
+        if isinstance(v, dict):
+            return any(mentions(x) for x in v.values())
+        return False
+    if any(mentions(a) or mentions(k) for a, k in seen):
+        ctx.ok(rule, construct, "the continuation is handed to the interpretation of the transformed function")
+    else:
+        ctx.bad(rule, construct, "the post-cond continuation reaches the sites inside a transformed branch",
+                "forward_mode interprets the branch with ADEV.eval_jaxpr_adev(jaxpr, consts, dual leaves) and applies the continuation to the result only: an ADEV site inside a "
+                "cond branch is estimated against a continuation that ends at the branch output, and the rest of the program is applied to the averaged value — input: "
+                "expectation(lambda p, flag: (cond(flag > 0, lambda p: float32(flip_enum(p)), lambda p: p, p) + 1.) ** 2): estimate(0.3, 1.0) = 1.69 (exact 1.9), "
+                "jvp tangent 2.6 (exact 3.0); the same site outside the cond gives 1.9 / 3.0", func_loc(ctx, dotted))
+
+
 # ================================================================================================ zero tangent shapes (C15)
 def zero_tangent_shapes(ctx, rule="SHAPE-zero-tangent"):
     """Every freshly manufactured zero tangent is derived from its primal."""
